@@ -135,7 +135,7 @@ TEMPLATE_NAMES = (
     "nested_shift", "mask_xor_cmp", "xor1_cmp", "ext_cmp", "extract_ext_cmp", "if10", "if10_and", "bswap_mix",
     "addsub_chain", "conj_eqne", "rot_mask", "minmax", "and_mask_cmp", "shift_of_ext", "extract_nest",
     "concat_extracts", "if_cmp", "not_cmp", "flatten", "sub_self", "extract_distrib", "if_nested", "uge_ne",
-    "zext_zext", "reverse_pair", "concat_mask",
+    "zext_zext", "reverse_pair", "concat_mask", "shift_of_concat",
 )
 
 
@@ -325,6 +325,37 @@ def _template_body(draw, cfg, name, n, m, cv, x, y, c, cmp_, eqne):
         e = draw(st.sampled_from((("zext", k, inner), ("concat", _c(0, k), inner), ("sext", k, inner))))
         amt = draw(st.sampled_from((n - k - 1, n - k, n - k + 1, k, 0, n)))
         return (draw(st.sampled_from(("bvlshr", "bvashr", "bvshl"))), e, _c(max(amt, 0), n))
+    if name == "shift_of_concat":
+        # a constant shift / extract of an n-ary (or nested, hence flattened) concatenation whose leading part is a zero
+        # constant, with the amount at and around every part boundary
+        parts_n = draw(st.integers(2, 4))
+        if n < parts_n:
+            return ("bvlshr", x, cv())
+        ws = _split_widths(draw, n, parts_n)
+        lead = draw(st.sampled_from((_c(0, ws[0]), _c(0, ws[0]), _c(0, ws[0]), draw(consts(ws[0])), draw(bv_vars(ws[0])))))
+        rest = [draw(st.one_of(bv_vars(w), bv_vars(w), consts(w))) for w in ws[1:]]
+        shape = draw(st.integers(0, 3))
+        if shape == 0 or len(rest) < 2:
+            e = ("concat", lead, *rest)
+        elif shape == 1:
+            e = ("concat", ("concat", lead, rest[0]), *rest[1:])
+        elif shape == 2:
+            e = ("concat", lead, ("concat", *rest))
+        else:
+            e = ("zext", ws[0], ("concat", *rest))
+        bounds = set()
+        acc = 0
+        for w in reversed(ws):
+            acc += w
+            bounds |= {acc - 1, acc, acc + 1}
+        amt = draw(st.sampled_from(sorted(b for b in bounds if 0 <= b <= n + 1)))
+        k = draw(st.integers(0, 5))
+        if k <= 3:
+            return (draw(st.sampled_from(("bvlshr", "bvlshr", "bvashr", "bvshl"))), e, _c(amt, n))
+        if k == 4:
+            hi = min(max(amt, 0), n - 1)
+            return ("extract", hi, draw(st.integers(0, hi)), e)
+        return (cmp_(), ("bvlshr", e, _c(amt, n)), draw(st.sampled_from((_c(0, n), cv()))))
     if name == "extract_nest":
         big = draw(st.sampled_from((n + 1, n + 8, 2 * n, n + 3)))
         big = min(big, cfg.get("max_width", 256))
